@@ -503,6 +503,14 @@ func genC03(tier string, seed uint64, emit func(string)) {
 			emit(serveLine("blk", [][]byte{p.bytes()}, "r b:76", floatTable(argv), fmt.Sprintf("served 3 ends %d %d %d", l0, l1, len(p.bytes()))))
 		}
 	}
+	// numbers at the borders of the 64-bit range (and at 2^62, where a doubled value leaves it) in every count, index,
+	// offset and limit position, over a handler whose reply has something to select from: such a request is answered
+	// like any other and the connection stays usable
+	for _, argv := range borderRequests() {
+		p := &pipeline{reqs: [][]byte{requestBytes(argv, nil), reqS("PING"), reqS("ECHO", "hi")}, quit: -1}
+		l0, l1 := len(p.reqs[0]), len(p.reqs[0])+len(p.reqs[1])
+		emit(serveLine("blk", [][]byte{p.bytes()}, "r a6 b:61 b:31 b:62 b:32 b:63 b:33", floatTable(argv), fmt.Sprintf("served 3 ends %d %d %d", l0, l1, len(p.bytes()))))
+	}
 	for i := 0; i < n; i++ {
 		p := genPipeline(r, 12, false)
 		script := genScript(r, 1+r.Intn(4), false)
@@ -523,6 +531,30 @@ func genC03(tier string, seed uint64, emit func(string)) {
 			emit(serveLine(cfg3, segs, script, floatTable(p.argvs...), extra))
 		}
 	}
+}
+
+// borderInts: the integers around which 64-bit arithmetic on counts, offsets and indexes goes wrong.
+var borderInts = []string{"0", "1", "2", "-1", "-2", "4611686018427387903", "4611686018427387904", "-4611686018427387904", "-4611686018427387905",
+	"9223372036854775806", "9223372036854775807", "-9223372036854775807", "-9223372036854775808", "3074457345618258603", "6148914691236517206"}
+
+// borderRequests: every command with a count / index / offset / limit position, with every pair of border integers.
+func borderRequests() [][][]byte {
+	var out [][][]byte
+	for _, a := range borderInts {
+		for _, b := range borderInts {
+			for _, ws := range [][]string{nil, {"WITHSCORES"}} {
+				out = append(out, bs(append([]string{"ZREVRANGEBYSCORE", "z", "+inf", "-inf", "LIMIT", a, b}, ws...)...))
+				out = append(out, bs(append([]string{"ZRANGEBYSCORE", "z", "-inf", "+inf", "LIMIT", a, b}, ws...)...))
+				out = append(out, bs(append([]string{"ZREVRANGE", "z", a, b}, ws...)...))
+			}
+			out = append(out, bs("ZRANGE", "z", "-inf", "+inf", "BYSCORE", "REV", "LIMIT", a, b))
+			out = append(out, bs("ZRANGE", "z", a, b, "REV"))
+			out = append(out, bs("GETRANGE", "k", a, b), bs("SUBSTR", "k", a, b), bs("LRANGE", "l", a, b))
+		}
+		out = append(out, bs("LPOP", "l", a), bs("RPOP", "l", a), bs("LINDEX", "l", a), bs("INCRBY", "k", a), bs("DECRBY", "k", a), bs("SCAN", a, "COUNT", a),
+			bs("EXPIRE", "k", a), bs("SETEX", "k", a, "v"), bs("SET", "k", "v", "EX", a), bs("SET", "k", "v", "PXAT", a), bs("SELECT", a))
+	}
+	return out
 }
 
 func oracleC03(c *serveCase, extra []string, res *serveResult) (string, []string) {
@@ -608,6 +640,32 @@ func genC04(tier string, seed uint64, emit func(string)) {
 	if tier == "thorough" {
 		n = 120000
 	}
+	// replies carrying a bulk string whose length sits on a digit-count border (10^k) or a buffer-size border (2^k):
+	// the value comes from the client (ECHO) and from the handler (GET, and inside an array reply), carries forged frames
+	// at the offset where a length prefix that is one digit short would end, and is followed by a further request
+	{
+		var lens []int
+		top := 100000
+		if tier == "thorough" {
+			top = 10000000
+		}
+		for v := 10; v <= top; v *= 10 {
+			lens = append(lens, v-1, v, v+1)
+		}
+		lens = append(lens, 1000000, 4095, 4096, 4097, 65535, 65536, 65537)
+		for _, ln := range lens {
+			p := bytes.Repeat([]byte{'v'}, ln)
+			copy(p[ln/10:], "\r\n+FORGED\r\n:1\r\n$-1\r\n")
+			stream := append(append(requestBytes([][]byte{[]byte("ECHO"), p}, nil), reqS("GET", "k")...), reqS("LRANGE", "l", "0", "-1")...)
+			stream = append(stream, reqS("PING")...)
+			emit(serveLine("-", [][]byte{stream}, "r b:"+hx(p)+" ; r a2 b:"+hx(p)+" b:61", "", ""))
+		}
+	}
+	for _, cfg := range []string{"-", "memo"} {
+		for _, l := range composedShapeCases(cfg, true) {
+			emit(l)
+		}
+	}
 	forged := append([]string{"foo\r\n+OK\r\n", "x\r\n:1\r\n", "k\r\n$-1\r\n", "\r", "\n", "a\rb", "-ERR\r\n"}, utf8Traps...)
 	for i := 0; i < n; i++ {
 		var stream []byte
@@ -650,6 +708,37 @@ func genC04(tier string, seed uint64, emit func(string)) {
 		}
 		emit(serveLine(cfg, [][]byte{stream}, genScript(r, 1+r.Intn(4), true), floatTable(argvs...), ""))
 	}
+}
+
+// composedShapeCases: every command the framework derives from other operations (and every command whose executor walks
+// the handler's reply) against every reply shape a handler can hand back - the right one, and wrong ones: nothing, an
+// error, a value of another type, arrays with null, nested, integer, status or missing elements, odd lengths.  Each
+// request is followed by a PING, so that what the connection does next is part of the observable.
+func composedShapeCases(cfg string, wild bool) []string {
+	cmds := [][]string{{"HKEYS", "h"}, {"HVALS", "h"}, {"HLEN", "h"}, {"HSTRLEN", "h", "f"}, {"HEXISTS", "h", "f"}, {"HMGET", "h", "f", "g"},
+		{"SCARD", "s"}, {"SISMEMBER", "s", "a"}, {"ZCARD", "z"}, {"ZREVRANGE", "z", "0", "-1"}, {"ZREVRANGE", "z", "0", "-1", "WITHSCORES"},
+		{"ZREVRANGEBYSCORE", "z", "+inf", "-inf"}, {"ZREVRANGEBYSCORE", "z", "+inf", "-inf", "WITHSCORES", "LIMIT", "1", "2"},
+		{"STRLEN", "k"}, {"GETRANGE", "k", "0", "-1"}, {"SUBSTR", "k", "1", "2"}, {"APPEND", "k", "x"}, {"INCR", "k"}, {"DECRBY", "k", "3"},
+		{"MGET", "k", "j"}, {"MSETNX", "k", "v", "j", "w"}, {"MSET", "k", "v", "j", "w"}, {"HMSET", "h", "f", "v", "g", "w"},
+		{"GETSET", "k", "v"}, {"SETNX", "k", "v"}, {"GET", "k"}, {"HGETALL", "h"}, {"SMEMBERS", "s"}, {"KEYS", "*"}, {"SCAN", "0"}}
+	shapes := []string{"r n", "r z", "r Z", "r s:4f4b", "r i:35", "r i:2d31", "r b:", "r b:3432", "r b:6162", "r b:610d0a62", "e 45525220626f6f6d", "re 626f7468 b:61",
+		"r a0", "r a1 b:61", "r a1 n", "r a1 a0", "r a1 i:31", "r a1 s:61", "r a2 b:61 b:31", "r a2 b:61 n", "r a2 n b:31", "r a2 b:61 a0", "r a2 a0 b:31",
+		"r a2 b:61 z", "r a2 i:31 i:32", "r a3 b:61 b:31 b:62", "r a3 b:61 a1 b:78 b:62", "r a4 b:61 b:31 b:62 b:32", "r a4 b:61 n b:62 b:32",
+		"r a4 b:61 b:31 a0 b:32", "r a4 b:61 b:31 b:62 i:32", "r a5 b:61 b:31 b:62 b:32 b:63", "r a1 a2 b:61 b:62", "r e:45525220696e6e6572"}
+	var out []string
+	for _, c := range cmds {
+		for _, sh := range shapes {
+			// a handler that returns neither a message nor an error, or an array with absent elements, breaks the handler
+			// contract (the request may then end in a recovered panic): only for the properties that cover such handlers
+			if !wild && (strings.Contains(sh, " z") || strings.Contains(sh, " Z")) {
+				continue
+			}
+			stream := append(reqS(c...), reqS("PING")...)
+			script := sh + " ; " + sh + " ; " + sh
+			out = append(out, serveLine(cfg, [][]byte{stream}, script, floatTable(bs(c...)), ""))
+		}
+	}
+	return out
 }
 
 func oracleC04(c *serveCase, extra []string, res *serveResult) (string, []string) {
@@ -696,6 +785,9 @@ func genC07(tier string, seed uint64, emit func(string)) {
 		emit(fmt.Sprintf("massdisc %d %d", n, 1+r.Intn(3)))
 		// configuration traffic racing with connection set-up
 		emit(fmt.Sprintf("cfgstorm %d %d %d", 2+r.Intn(4), 2+r.Intn(6), 700))
+	}
+	for _, l := range composedShapeCases("-", true) {
+		emit(l)
 	}
 	// clients that stop reading their replies must not disturb a witness connection
 	for _, store := range []string{"double", "example"} {
@@ -890,6 +982,10 @@ func genC20(tier string, seed uint64, emit func(string)) {
 	}
 	for i := 0; i < nconc; i++ {
 		emit(fmt.Sprintf("conc20 %d %d %d", 2+r.Intn(6), 3+r.Intn(10), r.U64()%1000000))
+	}
+	// composed commands on every path out of their executors (the inner command fails, answers with the wrong type, ...)
+	for _, l := range composedShapeCases("trace", false) {
+		emit(l)
 	}
 	n := 900
 	if tier == "thorough" {
